@@ -69,6 +69,36 @@ def content(case):
     return unhx(case['c'])
 
 
+def text_cps(case):
+    """the text of an sl / in case: code points in 't', or run-length segments [[code points], count] in 'tr'"""
+    if 'tr' in case:
+        out = []
+        for seg, n in case['tr']:
+            out.extend(seg * n)
+        return out
+    return case['t']
+
+
+class Flag:
+    """a truth value that is neither True nor False, equal to nothing, of no length: what `if flag:` reads is its
+    __bool__ only (an argument such as ignore_errors / reverse / preseek may be any object)"""
+    __slots__ = ('v',)
+
+    def __init__(self, v):
+        self.v = bool(v)
+
+    def __bool__(self):
+        return self.v
+
+    def __eq__(self, other):
+        return False
+
+    def __ne__(self, other):
+        return True
+
+    __hash__ = None
+
+
 def exotic_lead(c, text):
     """some line starts (after JSON whitespace) with a character that the reader's lstrip() removes but
     that is not JSON whitespace: \v \f, and for str also FS GS RS US NEL NBSP LS PS ...; whether such a
@@ -137,7 +167,24 @@ class C19(Property):
             '(run-length coded cases: {rle: [[hex, count], ...]}); one line 17..2049 bytes long read with block sizes 1, 2, 3, 5; '
             'contents of 5-70 KB with lines of 4095..20000 bytes read with block sizes 1000, 4096, 8191, 8192, 65536; the small '
             'contents again on real files of five kinds (rb, rb unbuffered, r+b, r utf-8, r utf-8 newline=\'\') and with the file '
-            'position moved away from 0 before the reader gets the file (case key pre).')
+            'position moved away from 0 before the reader gets the file (case key pre). '
+            'ROUND 5, generated right after the tiny exhaustive families: SIZES AT IMPLEMENTATION THRESHOLDS (255, 256, 257, 258 - '
+            'CPython shares int objects up to 256 -, 1000, 4095, 4096, 4097, 8192, 65536): texts of those lengths ending / not '
+            'ending in each of the eight break forms, the break starting at N-1, N, N+1 or leading, N breaks, N one-character '
+            'lines, fillers of all four string widths, the same through indent (run-length coded texts: {tr: [[code points, '
+            'count], ...]}); files of B-1 .. 3B+1 bytes read with blocksize B for B on the thresholds, a break 2 before .. 1 after '
+            'every block edge counted from either end, 255..258 lines, lines of 255..258 bytes, 65535..65537-byte files; '
+            'preseek=False with the position on the thresholds; JSONL records of 255..258 / 1000 bytes in nine shapes, files of '
+            '255..258 / 1000 records, total sizes on the thresholds, rel_seek on such files. ARGUMENT FORMS (key call): every '
+            'parameter by keyword / positionally, flags that are truthy or falsy objects but not bools, the default blocksize '
+            'left out, .next() for next(), indent keys returning non-bools, encoding= given (binary file read with '
+            "encoding='utf-8': mode te; 'latin-1': mode tl via kw; utf-8 text file read as latin-1: via ov). HISTORIES (key "
+            'hist): earlier complete calls of the whole family in other forms, live sibling generators (idle, or advanced between '
+            'the steps of the judged iteration), earlier FAILED calls (bad types, closed file, a text file dying of '
+            'UnicodeDecodeError inside the generator, rejected rel_seek, corrupt record in strict mode), the same binary file '
+            'object used before; the judged call is made twice and must answer the same. LIFETIME (key own): the generator holds '
+            'the only reference to its file. Every dict / list JSONLIterator returns is changed by the caller before the next '
+            'record is read; exhausted generators / iterators are asked once more; indent with margin, newline, text one object.')
     ASSUMPTIONS = ['text is a sequence of Unicode scalar values (no lone surrogates); text-mode files are opened as utf-8 and hold valid '
                    'UTF-8, or (mode tl) are opened as latin-1 - there reverse_iter_lines fails on the code as it is: known finding '
                    'C19-reverse-ignores-encoding, outside the model until the repair is in (probe ENC_OK)',
@@ -510,6 +557,12 @@ class C19(Property):
                 for bs in range(1, len(c) + 2):
                     for mode in ('b', 't'):
                         yield {'k': 'rl', 'c': hx(c), 'bs': bs, 'mode': mode}
+        # sizes at implementation thresholds, then argument forms / histories / lifetime (round 5): early
+        yield from self.size_sl()
+        yield from self.form_cases()
+        yield from self.size_rl()
+        yield from self.size_rf()
+        yield from self.size_jl(rng)
         yield from self.tbreak_rl()
         # jl: one-line files, then lines holding str-only breaks, odd json.loads errors, long lines
         for c in self.small_jsonl(1):
@@ -530,6 +583,251 @@ class C19(Property):
         yield from self.latin_rl(3)
         for _ in range(200 if self.thorough else 30):
             yield self.big_rl(rng)
+
+    # ---- sizes at implementation thresholds (round 5) ----------------------------------------------
+    # CPython shares int objects up to 256 (an `is` between two equal lengths holds up to there and fails beyond), io and
+    # JSONLIterator work in blocks of 4096 / 8192 bytes, 65536 is the next usual buffer size, 1000 the odd one out
+    THRESH = [255, 256, 257, 258, 1000, 4095, 4096, 4097, 8192, 65536]
+    BREAK_FORMS = [[13, 10], [10], [11], [12], [13], [0x85], [0x2028], [0x2029]]
+
+    def size_sl(self):
+        """iter_splitlines / indent on texts whose LENGTH, whose break POSITIONS or whose NUMBER OF LINES sit on those
+        values: length N ending / not ending in each of the eight break forms, the break starting at N-1, N, N+1, at the
+        very start, N breaks in a row, N one-character lines; for N <= 258 also with fillers of the other three
+        string widths (U+00E9, U+65E5, U+1F600)"""
+        A, Bc = [97], [98]
+
+        def tr(*segs, **kw):
+            return dict({'k': 'sl', 'tr': [[list(sg), n] for sg, n in segs if n > 0]}, **kw)
+        for N in self.THRESH:
+            big, huge = N > 1000, N > 8192
+            yield tr((A, N))
+            for brk in self.BREAK_FORMS:
+                L = len(brk)
+                if huge and brk not in ([13, 10], [10], [0x85], [0x2028]):
+                    continue
+                yield tr((A, N - L), (brk, 1))                         # length N, ends with the break
+                if huge and L == 1:
+                    continue
+                yield tr((A, N), (brk, 1), (Bc, 1))                    # the break starts at N, the text goes on
+                if huge or N in (4095, 4097):
+                    continue
+                yield tr((A, N), (brk, 1))                             # the break starts at N and ends the text
+                yield tr((A, N - L - 1), (brk, 1), (Bc, 1))            # length N, one character after the break
+                if big and brk not in ([13, 10], [10], [0x2028]):
+                    continue
+                yield tr((brk, 1), (A, N - L))                         # length N, break first
+                yield tr((A, N - 1), (brk, 1))                         # the break starts at N-1
+                if big:
+                    continue
+                yield tr((A, 3), (brk, 1), (A, N - 2 * L - 3), (brk, 1))     # two breaks, length N, ends with one
+                yield tr((A, N + 1), (brk, 1))
+                yield tr((brk, N))                                     # N breaks: N + 1 items
+                yield tr((A + brk, N))                                 # N one-character lines
+                yield tr((A + brk, N - 1), (A, 1))
+            if N <= 258:
+                for fill in ([0xe9], [0x65e5], [0x1f600]):
+                    for brk in self.BREAK_FORMS:
+                        L = len(brk)
+                        yield tr((fill, N - L), (brk, 1))
+                        yield tr((fill, N + 1 - L), (brk, 1))
+                        yield tr((fill, N), (brk, 1), (fill, 1))
+        for N in (255, 256, 257, 258, 4096, 4097, 65536):
+            for i, brk in enumerate(self.BREAK_FORMS):
+                L = len(brk)
+                for segs in ([(A, N - L), (brk, 1)], [(A, N - L - 1), (brk, 1), (Bc, 1)], [(A + brk, N // 2)]):
+                    if N > 8192 and i > 1:
+                        continue
+                    yield tr(*segs, k='in', m=[32], nl=[[10], [13, 10], []][i % 3], key=['bool', 'all'][i % 2])
+
+    def size_rl(self):
+        """reverse_iter_lines on files whose SIZE, LINE LENGTHS, NUMBER OF LINES or break positions sit on the
+        thresholds, read with block sizes on the thresholds: for B in 255..258, 1000, 4096, 8192 files of B-1, B, B+1,
+        2B-1, 2B, 2B+1, 3B+1 bytes (one line; break last; break first; a break starting 2 before .. 1 after every block
+        edge counted from the END of the file and from its START); 255..258 lines of 0 / 1 / 2 bytes; 1-3 lines of
+        255..258 bytes; files of 65535..65537 bytes"""
+        def case(segs, bs, mode, **kw):
+            return dict({'k': 'rl', 'rle': [[hx(b), n] for b, n in segs if n > 0 and b], 'bs': bs, 'mode': mode}, **kw)
+        i = 0
+        for B in (255, 256, 257, 258, 1000, 4096, 8192):
+            for S in ((B - 1, B, B + 1, 2 * B - 1, 2 * B, 2 * B + 1, 3 * B + 1) if B < 8192 else (B, B + 1, 2 * B + 1)):
+                for sep in (b'\n', b'\r\n'):
+                    L = len(sep)
+                    shapes = [[(b'a', S)], [(b'a', S - L), (sep, 1)], [(sep, 1), (b'a', S - L)]]
+                    edges = {S - B, S - 2 * B, S - 3 * B, B, 2 * B, 3 * B}
+                    for p in sorted({e + d for e in edges for d in (-2, -1, 0, 1)}):
+                        if 0 < p and p + L < S:
+                            shapes.append([(b'a', p), (sep, 1), (b'b', S - p - L)])
+                    for sh in shapes:
+                        i += 1
+                        yield case(sh, B, 'bt'[i % 2])
+                        if i % 16 == 0:
+                            yield case(sh, B, REAL_MODES[(i // 16) % len(REAL_MODES)])
+        for n in (255, 256, 257, 258):
+            for sep in (b'\n', b'\r\n'):
+                for unit in (b'', b'a', E_ACUTE):
+                    for end in (True, False):
+                        segs = [(unit + sep, n)] if end else [(unit + sep, n - 1), (unit or b'z', 1)]
+                        for bs in (1, 2, 3, 255, 256, 257, 4096):
+                            i += 1
+                            yield case(segs, bs, 'bt'[i % 2])
+                for nlines in (1, 2, 3):
+                    for end in (True, False):
+                        segs = []
+                        for j in range(nlines):
+                            segs += [(b'abc'[j:j + 1], n), (sep, 1)]
+                        if not end:
+                            segs.pop()
+                        for bs in (1, 64, 255, 256, 257, 258, 4096):
+                            i += 1
+                            yield case(segs, bs, 'bt'[i % 2])
+        for S in (65535, 65536, 65537):
+            for sep in (b'\n', b'\r\n'):
+                L = len(sep)
+                q, r = divmod(S, 79 + L)
+                for bs in (1000, 4096, 65535, 65536):
+                    i += 1
+                    yield case([(b'a' * 79 + sep, q), (b'z', r)], bs, 'bt'[i % 2])
+                    yield case([(b'z', r), (b'a' * 79 + sep, q)], bs, 'tb'[i % 2])
+                yield case([(b'a', S - L), (sep, 1)], 4096, 'b')
+                yield case([(sep, 1), (b'a', S - L)], 65536, 't')
+
+    def size_rf(self):
+        """preseek=False with the file position on the thresholds, a line break ending at / starting at / straddling it"""
+        i = 0
+        for pos in (255, 256, 257, 258, 4095, 4096, 4097):
+            for sep in (b'\n', b'\r\n'):
+                L = len(sep)
+                conts = [[(b'a' * 79 + sep, 70)], [(b'a', pos - L), (sep, 1), (b'b', 300)], [(b'a', pos), (sep, 1), (b'b', 300)],
+                         [(b'a', pos - 1), (sep, 1), (b'b', 300)], [(b'a' + sep, pos // (1 + L) - 1), (b'b', 300)]]
+                for segs in conts:
+                    for bs in ((3, 255, 256, 257, 4096) if pos <= 258 else (255, 256, 4096, 4097)):
+                        i += 1
+                        yield {'k': 'rf', 'rle': [[hx(b), n] for b, n in segs if n > 0], 'bs': bs, 'pos': pos,
+                               'mode': self.BIN_MODES[i % 4] if i % 7 == 0 else 'b'}
+
+    def size_jl(self, rng):
+        """JSON Lines: records of 255..258 and 1000 bytes in the nine shapes; files of 255..258 and 1000 records (all
+        valid / every third corrupt and blank lines between / an error at the last record in strict mode / that many
+        blank lines first); files whose total size is 255..258, 4095..4097, 8191..8193, 12288, 65536; rel_seek on
+        files of those sizes"""
+        ctx = [([], []), ([b'1'], []), ([], [b'20']), ([b'1'], [b'20']), ([b'', b'"x"'], [b'', b'7']), ([b'{x', b'-7'], [b'{x'])]
+        i = 0
+        for w in (255, 256, 257, 258, 1000):
+            for kind in self.LONG_KINDS:
+                for sep in (b'\n', b'\r\n'):
+                    for mode in ('b', 't'):
+                        i += 1
+                        pre, post = ctx[i % len(ctx)]
+                        yield self.long_case(rng, kind, w, pre, post, sep, i % 3 != 0, mode, 1 if i % 5 else 0)
+        for n in (255, 256, 257, 258, 1000):
+            for sep in (b'\n', b'\r\n'):
+                for mode in ('b', 't'):
+                    def jl(segs, ign):
+                        return {'k': 'jl', 'rle': [[hx(b), m] for b, m in segs if m > 0], 'mode': mode, 'ign': ign}
+                    yield jl([(b'1' + sep, n)], 1)
+                    yield jl([(b'1' + sep, n - 1), (b'20', 1)], 0)
+                    yield jl([(b'1' + sep + sep + b'{x' + sep, n), (b'20', 1)], 1)
+                    yield jl([(b'[]' + sep, n - 1), (b'{x' + sep, 1), (b'7' + sep, 1)], 0)
+                    yield jl([(sep, n), (b'7', 1)], 1)
+                    yield jl([(b'7' + sep, 1), (b' ' + sep, n)], 0)
+        for S in (255, 256, 257, 258, 4095, 4096, 4097, 8191, 8192, 8193, 12288, 65536):
+            for sep in (b'\n', b'\r\n'):
+                rec = (b'12' if S < 10000 else b'"' + b'x' * 60 + b'"') + sep
+                q, r = divmod(S, len(rec))
+                for mode in ('b', 't', 'bf', 'tf'):
+                    if len(mode) > 1 and S not in (256, 257, 4096, 8192, 65536):
+                        continue
+                    yield {'k': 'jl', 'rle': [[hx(b' '), r], [hx(rec), q]], 'mode': mode, 'ign': 1}
+                    q2, r2 = divmod(S - 2, len(rec))
+                    yield {'k': 'jl', 'rle': [sg for sg in ([hx(rec), q2], [hx(b' '), r2], [hx(b'20'), 1]) if sg[1] > 0],
+                           'mode': mode, 'ign': 0}
+        for S in (255, 256, 257, 258, 4095, 4096, 4097, 8192):
+            c = b' ' * (S % 3) + b'20\n' * (S // 3)
+            for num, den in ((1, 2), (1, 3), (255, 256), (99, 100), (1, 1000)):
+                if self.js_in_domain(c, num, den):
+                    yield {'k': 'js', 'c': hx(c), 'num': num, 'den': den, 'ign': 1, 'mode': 't'}
+
+    # ---- every argument form, call histories, identity coincidences, object lifetime (round 5) ------
+    FORM_SL = ['', 'a', '\n', 'a\n', 'a\r\nb', '\r\n', 'a b ', 'a\x0bb\x0c', '\x85', 'a\rb\r', '\n\n', 'a' * 257 + '\n']
+    FORM_RL = [b'', b'a', b'a\n', b'\na', b'a\nb', b'a\r\nb\r\n', b'\r\n\r\na', b'\xc3\xa9\n\xc3\xa9', b'a\n\nb\n\n',
+               b'a\xe2\x80\xa8b\nc', b'a' * 300 + b'\n' + b'b' * 300]
+    FORM_JL = [b'1\n20\n', b'\n1\n\n"x"', b'{x\r\n7\r\n', b'[]\n[]\n{}\n{}', b' \n\t\n-7\n', b'1\n{x\n20', b'[]\r\n{x\r\n[]\r\n',
+               b'"' + b'x' * 300 + b'"\n7\n']
+
+    def form_cases(self):
+        """the small contents again (a) in every argument form the functions accept (case key 'call': keywords only,
+        positional only, flags that are truthy / falsy objects but not bools, the default block size left out, .next()
+        instead of next(), key functions returning non-bools, encoding= given: a binary file read with encoding='utf-8'
+        (mode te) or 'latin-1' (mode tl via kw), a utf-8 text file read with encoding='latin-1' (via ov)); (b) after a
+        history of other calls (key 'hist', see history()); (g) with the generator holding the only reference to its file
+        (key 'own'); (d) indent with margin / newline / text being one and the same object.  The judged call is made
+        twice in each of these cases."""
+        i = 0
+        for call in (1, 2, 3):
+            for t in self.FORM_SL:
+                if call == 1:
+                    yield {'k': 'sl', 't': cps(t), 'call': 1}
+                for key in ('bool', 'all', 'len', 'str1'):
+                    yield {'k': 'in', 't': cps(t), 'm': [62, 32], 'nl': [[10], [13, 10], [124]][call - 1], 'key': key, 'call': call}
+            for c in self.FORM_RL:
+                for bs in sorted({1, 2, len(c) + 1, 4096}):
+                    for mode in ('b', 't', 'bf', 'tf'):
+                        if len(mode) > 1 and bs != 2:
+                            continue
+                        yield {'k': 'rl', 'c': hx(c), 'bs': bs, 'mode': mode, 'call': call}
+                    yield {'k': 'rf', 'c': hx(c), 'bs': bs, 'pos': len(c) * 2 // 3, 'mode': 'b', 'call': call}
+            for c in self.FORM_JL:
+                for mode in ('b', 't'):
+                    for ign in (1, 0):
+                        yield {'k': 'jl', 'c': hx(c), 'mode': mode, 'ign': ign, 'call': call}
+                if self.js_in_domain(c, 1, 2) and not has_lone_cr(c):
+                    yield {'k': 'js', 'c': hx(c), 'num': 1, 'den': 2, 'ign': 1, 'mode': 't', 'call': call}
+        # encoding= given
+        for c in self.FORM_RL + [b'\xe9\nb', b'\xc3\xa9\r\n\xff', b'a\x85b\n']:
+            for bs in sorted({1, 2, len(c) + 1}):
+                if self.decodable(c):
+                    yield {'k': 'rl', 'c': hx(c), 'bs': bs, 'mode': 'te'}
+                    yield {'k': 'rl', 'c': hx(c), 'bs': bs, 'mode': 'te', 'call': 1 + bs % 2}
+                    yield {'k': 'rl', 'c': hx(c), 'bs': bs, 'mode': 'tl', 'via': 'ov'}
+                yield {'k': 'rl', 'c': hx(c), 'bs': bs, 'mode': 'tl', 'via': 'kw'}
+                yield {'k': 'rl', 'c': hx(c), 'bs': bs, 'mode': 'tl', 'via': 'kw', 'call': 1 + bs % 2}
+        if self.decodable(b'a\nb'):
+            yield {'k': 'rl', 'c': hx(b'\xc3\xa9\n\xc3\xa9\r\nb'), 'bs': 2, 'mode': 'tE'}
+        # histories
+        for hist in (1, 2, 3, 4, 5):
+            for t in self.FORM_SL:
+                if hist != 5:
+                    yield {'k': 'sl', 't': cps(t), 'hist': hist}
+                    if hist != 2:
+                        yield {'k': 'in', 't': cps(t), 'm': [32], 'nl': [10], 'key': 'bool', 'hist': hist}
+            for c in self.FORM_RL:
+                for bs in sorted({1, 2, len(c) + 1}):
+                    for mode in (('b', 'bu') if hist == 5 else ('b', 't', 'te')):
+                        i += 1
+                        if len(mode) > 1 and i % 3:
+                            continue
+                        yield {'k': 'rl', 'c': hx(c), 'bs': bs, 'mode': mode, 'hist': hist, 'call': i % 3}
+                    if hist in (3, 5):
+                        yield {'k': 'rf', 'c': hx(c), 'bs': bs, 'pos': len(c) // 2, 'mode': 'b', 'hist': hist}
+            for c in self.FORM_JL:
+                for mode in (('b', 'bu') if hist == 5 else ('b', 't')):
+                    for ign in (1, 0):
+                        i += 1
+                        yield {'k': 'jl', 'c': hx(c), 'mode': mode, 'ign': ign, 'hist': hist, 'call': i % 4}
+        # the generator / iterator holds the only reference to its file
+        for c in self.FORM_RL:
+            for bs in (1, len(c) + 1):
+                for mode in ('b', 't', 'te'):
+                    yield {'k': 'rl', 'c': hx(c), 'bs': bs, 'mode': mode, 'own': 1}
+        for c in self.FORM_JL:
+            for mode in ('b', 't'):
+                yield {'k': 'jl', 'c': hx(c), 'mode': mode, 'ign': 1, 'own': 1}
+        # one object in two roles
+        for t in ([10], [32], [97, 10], [10, 10], [13, 10], [97, 10, 98], [0x2028], []):
+            for m, nl in ((t, t), (t, [10]), ([32], t), ([10], [10]), ([13, 10], [13, 10]), ([], [])):
+                for key in ('bool', 'all'):
+                    yield {'k': 'in', 't': t, 'm': m, 'nl': nl, 'key': key, 'call': 0, 'own': 1}
 
     def tbreak_rl(self):
         """lines containing a character at which str.splitlines (but no file reader) breaks: VT FF FS GS RS
@@ -1049,7 +1347,7 @@ class C19(Property):
     def line(self, case):
         k = case['k']
         if k == 'sl':
-            return 'sl ' + show_cps(case['t'])
+            return 'sl ' + show_cps(text_cps(case))
         if k == 'rl' and case['mode'] == 'tl':
             # latin-1 decodes byte by byte (C19.reverse_lines_single_byte_codec): the byte lines are the text lines;
             # outside the model while the code ignores the encoding of the file (known finding)
@@ -1060,7 +1358,8 @@ class C19(Property):
         if k == 'rf':
             return 'rf %s %d %d' % (hx(content(case)), case['pos'], case['bs'])
         if k == 'in':
-            return 'in %s %s %s %s' % (show_cps(case['t']), show_cps(case['m']), show_cps(case['nl']), case['key'])
+            return 'in %s %s %s %s' % (show_cps(text_cps(case)), show_cps(case['m']), show_cps(case['nl']),
+                                       self.IN_KEYS[case['key']])
         if k == 'js':
             c = content(case)
             if not set(c) <= JL_ALLOWED or not self.js_in_domain(c, case['num'], case['den']):
@@ -1137,37 +1436,224 @@ class C19(Property):
                 return ['?', repr(x)]
         return ['?', repr(x)[:50]]
 
-    def run_rl(self, content, bs, mode, pre=0, pos=None):
-        from boltons.jsonutils import reverse_iter_lines
-        f, close = self.open_file(content, mode)
+    # ---- argument forms, call histories, object lifetime (round 5) -----------------------------
+    # key of `indent` by name: what the case says -> (the callable, the model's key)
+    IN_KEYS = {'bool': 'bool', 'all': 'all', 'len': 'bool', 'str1': 'all'}
+    IN_KEY_FUNCS = {'all': (lambda line: True), 'len': len, 'str1': (lambda line: 'x')}
+
+    def call_rl(self, f, bs, pos, call, enc):
+        """reverse_iter_lines called in one of the forms it accepts (same abstract call):
+        0 positional file + blocksize (preseek / encoding by keyword when needed); 1 every argument by keyword;
+        2 every argument positional, preseek a truthy / falsy object that is not a bool; 3 the default blocksize
+        left out (cases whose blocksize IS the default)"""
+        from boltons import jsonutils
+        rev = jsonutils.reverse_iter_lines
+        if call == 1:
+            return rev(file_obj=f, blocksize=bs, preseek=(pos is None), encoding=enc)
+        if call == 2:
+            return rev(f, bs, Flag(pos is None), enc)
+        kw = {}
+        if enc:
+            kw['encoding'] = enc
+        if pos is not None:
+            kw['preseek'] = False
+        if call == 3 and bs == getattr(jsonutils, 'DEFAULT_BLOCKSIZE', None):
+            return rev(f, **kw)
+        return rev(f, bs, **kw)
+
+    @staticmethod
+    def mode_encoding(mode, via):
+        """the encoding= argument a case passes: mode 'te' = a BINARY file read with encoding='utf-8' (str lines, as
+        from a text file); mode 'tl' via 'kw' = a binary file read with encoding='latin-1', via 'ov' = a utf-8 text
+        file read with encoding='latin-1' (the argument wins over the encoding of the file)"""
+        if mode in ('te', 'tE'):
+            return 'utf-8'
+        if mode == 'tl' and via in ('kw', 'ov'):
+            return 'latin-1'
+        return None
+
+    def history(self, kind, f=None):
+        """what happened BEFORE the judged call (case key 'hist'); returns a tick() to be called between the steps of
+        the judged iteration, or None.
+        1 = complete earlier calls of every function of the family on other inputs in other argument forms;
+        2 = generators / iterators over other inputs started, advanced once and left alive (idle) during the judged call;
+        3 = earlier calls that FAILED (wrong argument types, a closed file, an undecodable text file dying in the middle
+            of the generator, a rejected rel_seek, a corrupt record in strict mode);
+        4 = like 2, and the siblings are advanced one step between any two steps of the judged iteration;
+        5 = (binary file objects) the SAME file object was used before: read a little, iterated forward for a record,
+            a reverse_iter_lines generator over it started and abandoned"""
+        from boltons.strutils import iter_splitlines, indent
+        from boltons.jsonutils import reverse_iter_lines, JSONLIterator
+
+        def tfile(b, enc='utf-8'):
+            return io.TextIOWrapper(io.BytesIO(b), encoding=enc)
+        if kind == 1:
+            list(iter_splitlines('x\r\ny z\n'))
+            list(iter_splitlines(text='q' * 300 + '\x85'))
+            indent('p\nq\n', '>>', newline='|', key=len)
+            list(reverse_iter_lines(io.BytesIO(b'p\nq\r\nr\n'), 2))
+            list(reverse_iter_lines(tfile(b'p\n\xc3\xa9\n'), blocksize=3))
+            list(reverse_iter_lines(io.BytesIO(b'p\nq' * 200), 256, preseek=False))
+            list(reverse_iter_lines(io.BytesIO(b'\xe9\nb'), 1, encoding='latin-1'))
+            list(JSONLIterator(io.BytesIO(b'1\n{x\n[]\n'), ignore_errors=True))
+            list(JSONLIterator(tfile(b'1\n\n"q"\r\n'), reverse=True))
+            list(JSONLIterator(tfile(b'1\n2\n3\n4\n'), rel_seek=0.5))
+            return None
+        if kind in (2, 4):
+            sibs = [iter_splitlines('s1\ns2\r\ns3\x0b' * 3), reverse_iter_lines(io.BytesIO(b'r1\nr2\r\nr3\n' * 3), 2),
+                    reverse_iter_lines(tfile(b'\xc3\xa9\nb\n' * 3), 3), JSONLIterator(io.BytesIO(b'5\n6\n7\n' * 3)),
+                    JSONLIterator(tfile(b'5\n"s"\n7\n' * 3), reverse=True)]
+            for sb in sibs:
+                next(sb, None)
+            self._sibs = sibs       # alive until the next case with a history
+
+            def tick():
+                for sb in sibs:
+                    next(sb, None)
+            return tick if kind == 4 else None
+        if kind == 3:
+            closed = io.BytesIO(b'a\nb')
+            closed.close()
+            for thunk in (lambda: list(iter_splitlines(None)), lambda: list(iter_splitlines(b'a\nb')),
+                          lambda: indent(None, ' '), lambda: indent('a\nb', None), lambda: indent('a\nb', ' ', key=None),
+                          lambda: list(reverse_iter_lines(None)), lambda: list(reverse_iter_lines(closed)),
+                          lambda: list(reverse_iter_lines(io.BytesIO(b'a\nb\nc'), 'x')),
+                          lambda: list(reverse_iter_lines(tfile(b'ok\n\xff\nzz\n'), 2)),
+                          lambda: list(reverse_iter_lines(io.BytesIO(b'ok\n\xff\nzz\nyy'), 2, encoding='ascii')),
+                          lambda: JSONLIterator(io.BytesIO(b'1\n'), rel_seek=2.0),
+                          lambda: JSONLIterator(None),
+                          lambda: list(JSONLIterator(io.BytesIO(b'1\n{x\n2\n'))),
+                          lambda: list(JSONLIterator(io.BytesIO(b'1\n{x\n2\n'), reverse=True)),
+                          lambda: list(JSONLIterator(tfile(b'1\n\xff\n2\n'), reverse=True, ignore_errors=True))):
+                try:
+                    thunk()
+                except CaseTimeout:
+                    raise
+                except Exception:
+                    pass
+            return None
+        if kind == 5 and f is not None:
+            f.read(3)
+            g = reverse_iter_lines(f, 2)
+            next(g, None)
+            next(g, None)
+            self._sibs = [g]        # abandoned, never resumed
+            it = JSONLIterator(f, ignore_errors=True)
+            next(it, None)
+            f.read(1)
+            return None
+        return None
+
+    def run_rl(self, content, bs, mode, pre=0, pos=None, call=0, via=None, hist=0, own=False):
+        enc = self.mode_encoding(mode, via)
+        tick = None
+        if own and mode in ('b', 't', 'te') and pos is None and not pre:
+            # object lifetime: the generator holds the ONLY reference to the file object it was given
+            if hist:
+                tick = self.history(hist)
+            if mode == 't':
+                gen = self.call_rl(io.TextIOWrapper(io.BytesIO(content), encoding='utf-8'), bs, None, call, enc)
+            else:
+                gen = self.call_rl(io.BytesIO(content), bs, None, call, enc)
+            import gc
+            gc.collect(0)
+            close = (lambda: None)
+        else:
+            if mode in ('te', 'tE'):
+                f, close = self.open_file(content, 'b' if mode == 'te' else 'bf')
+            elif mode == 'tl' and via == 'kw':
+                f, close = self.open_file(content, 'b')
+            elif mode == 'tl' and via == 'ov':
+                f, close = self.open_file(content, 't')
+            else:
+                f, close = self.open_file(content, mode)
+            gen = None
         try:
-            if pre:
-                f.read(pre)     # the caller had a look at the head of the file first
+            if gen is None:
+                if hist:
+                    tick = self.history(hist, f if (hist == 5 and mode in self.BIN_MODES) else None)
+                    if hist == 5 and pos is None:
+                        pre = 0
+                if pre:
+                    f.read(pre)     # the caller had a look at the head of the file first
+                if pos is not None:
+                    f.seek(pos)     # relative reverse line generation: the caller positions the file itself
+                gen = self.call_rl(f, bs, pos, call, enc)
             out = []
-            if pos is not None:
-                f.seek(pos)     # relative reverse line generation: the caller positions the file itself
-            for x in (reverse_iter_lines(f, bs) if pos is None else reverse_iter_lines(f, bs, preseek=False)):
+            for x in gen:
                 out.append(self.enc_line(x))
                 if len(out) > len(content) + 5:
                     return {'exc': 'TooManyLines', 'lines': out}
+                if tick:
+                    tick()
+            # an exhausted generator stays exhausted
+            extra = next(gen, None)
+            if extra is not None:
+                out.append(self.enc_line(extra))
+                return {'exc': 'YieldsAfterTheEnd', 'lines': out}
             return {'lines': out}
         finally:
             close()
 
-    def drain_jsonl(self, content, mode, ign, reverse, pre=0, rel_seek=None, resume=None, poss=None):
+    @staticmethod
+    def spoil(o):
+        """the caller changes the object it was handed (a later record must not show it)"""
+        if isinstance(o, list):
+            o.append('spoiled')
+        elif isinstance(o, dict):
+            o['spoiled'] = 1
+
+    def make_jsonl(self, f, ign, reverse, rel_seek, call):
+        """JSONLIterator constructed in one of the forms it accepts: 0 flags as bools by keyword (rel_seek only when
+        given); 1 every parameter by keyword, rel_seek=None spelled out; 2 every parameter positional, the flags being
+        objects with a __bool__ (neither True nor False, equal to nothing); 3 flags as the ints 1 / 0 (ignore_errors as
+        a non-empty / empty string when there is no rel_seek)"""
+        from boltons.jsonutils import JSONLIterator
+        if call == 1:
+            return JSONLIterator(file_obj=f, ignore_errors=bool(ign), reverse=bool(reverse), rel_seek=rel_seek)
+        if call == 2:
+            if rel_seek is None:
+                return JSONLIterator(f, Flag(ign), Flag(reverse))
+            return JSONLIterator(f, Flag(ign), Flag(reverse), rel_seek)
+        if call == 3:
+            if rel_seek is None:
+                return JSONLIterator(f, ignore_errors=('yes' if ign else ''), reverse=(1 if reverse else 0))
+            return JSONLIterator(f, ignore_errors=(1 if ign else 0), reverse=(1 if reverse else 0), rel_seek=rel_seek)
+        if rel_seek is None:
+            return JSONLIterator(f, ignore_errors=bool(ign), reverse=reverse)
+        return JSONLIterator(f, ignore_errors=bool(ign), reverse=reverse, rel_seek=rel_seek)
+
+    def drain_jsonl(self, content, mode, ign, reverse, pre=0, rel_seek=None, resume=None, poss=None, call=0,
+                    hist=0, own=False):
         """objects yielded by a plain loop and the exception that ended it; with resume=[] also every next()
         result when the caller goes on after each error (appended to the list: ['o', obj] / ['e', name])"""
-        from boltons.jsonutils import JSONLIterator
-        f, close = self.open_file(content, mode)
+        import copy
+        tick = None
+        if own and mode in ('b', 't') and not pre:
+            if hist:
+                tick = self.history(hist)
+            it = self.make_jsonl(io.TextIOWrapper(io.BytesIO(content), encoding='utf-8') if mode == 't'
+                                 else io.BytesIO(content), ign, reverse, rel_seek, call)
+            import gc
+            gc.collect(0)
+            close = (lambda: None)
+        else:
+            f, close = self.open_file(content, mode)
+            it = None
         objs = []
         first_exc = None
         try:
-            if pre:
-                f.read(pre)
-            if rel_seek is None:
-                it = JSONLIterator(f, ignore_errors=bool(ign), reverse=reverse)
-            else:
-                it = JSONLIterator(f, ignore_errors=bool(ign), reverse=reverse, rel_seek=rel_seek)
+            if it is None:
+                if hist:
+                    # the same file object used before: only reverse mode says where it starts (the end of the file)
+                    same = hist == 5 and reverse and rel_seek is None and mode in self.BIN_MODES
+                    tick = self.history(hist, f if same else None)
+                if pre:
+                    f.read(pre)
+                it = self.make_jsonl(f, ign, reverse, rel_seek, call)
+            step = (lambda: it.next()) if call in (1, 3) else (lambda: next(it))
+            if call == 1 and iter(it) is not it:
+                return objs, 'IterIsNotSelf'
             cap = len(content) + 5
             n = 0
             while True:
@@ -1177,8 +1663,19 @@ class C19(Property):
                         first_exc = 'TooManyObjects'
                     break
                 try:
-                    o = next(it)
+                    o = step()
                 except StopIteration:
+                    # an exhausted iterator stays exhausted
+                    try:
+                        o = step()
+                    except StopIteration:
+                        break
+                    except Exception as e:
+                        if first_exc is None:
+                            first_exc = 'AfterTheEnd' + exc_name(e)
+                        break
+                    if first_exc is None:
+                        first_exc = 'YieldsAfterTheEnd'
                     break
                 except CaseTimeout:
                     raise
@@ -1189,78 +1686,116 @@ class C19(Property):
                         break
                     resume.append(['e', exc_name(e)])
                     continue
+                finally:
+                    if tick:
+                        tick()
+                keep = copy.deepcopy(o) if isinstance(o, (list, dict)) else o
+                self.spoil(o)
                 if first_exc is None:
-                    objs.append(o)
+                    objs.append(keep)
                     if poss is not None:
                         try:
                             poss.append(int(it.cur_byte_pos))
                         except Exception as e:
                             poss.append('?' + exc_name(e))
                 if resume is not None:
-                    resume.append(['o', o])
+                    resume.append(['o', keep])
             return objs, first_exc
         finally:
             close()
 
-    def impl(self, case):
+    def observe(self, case):
         k = case['k']
+        call, hist, own = case.get('call', 0), case.get('hist', 0), bool(case.get('own'))
+        if k == 'sl':
+            from boltons.strutils import iter_splitlines
+            text = ''.join(map(chr, text_cps(case)))
+            tick = self.history(hist) if hist else None
+            gen = iter_splitlines(text=text) if call == 1 else iter_splitlines(text)
+            lines = []
+            for l in gen:
+                lines.append(cps(l) if isinstance(l, str) else ['?'])
+                if tick:
+                    tick()
+            if next(gen, None) is not None:
+                return {'exc': 'YieldsAfterTheEnd'}
+            return {'lines': lines}
+        if k == 'rl':
+            c = content(case)
+            obs = self.run_rl(c, case['bs'], case['mode'], case.get('pre', 0), call=call, via=case.get('via'),
+                              hist=hist, own=own)
+            whole = self.run_rl(c, len(c) + 1, case['mode'], via=case.get('via'))
+            obs['whole'] = whole.get('lines')
+            return obs
+        if k == 'rf':
+            c = content(case)
+            obs = self.run_rl(c, case['bs'], case['mode'], pos=case['pos'], call=call, hist=hist)
+            whole = self.run_rl(c, len(c) + 1, case['mode'], pos=case['pos'])
+            obs['whole'] = whole.get('lines')
+            return obs
+        if k == 'in':
+            from boltons.strutils import indent
+            # equal arguments are ONE object (margin is newline, text is margin ...)
+            pool = {}
+            text, margin, nl = (pool.setdefault(tuple(x), ''.join(map(chr, x)))
+                                for x in (text_cps(case), case['m'], case['nl']))
+            if hist:
+                self.history(hist)
+            key = case['key']
+            if call == 1:
+                r = indent(text=text, margin=margin, newline=nl, key=self.IN_KEY_FUNCS.get(key, bool))
+            elif call == 2:
+                r = indent(text, margin, nl, self.IN_KEY_FUNCS.get(key, bool))
+            elif key == 'bool':
+                r = indent(text, margin, nl)
+            else:
+                r = indent(text, margin, nl, key=self.IN_KEY_FUNCS[key])
+            return {'text': cps(r) if isinstance(r, str) else ['?']}
+        if k == 'js':
+            c = content(case)
+            if not self.js_in_domain(c, case['num'], case['den']):
+                return {'exc': 'OutsideDomain'}
+            rs = case['num'] / case['den']
+            fo, fe = self.drain_jsonl(c, case['mode'], case['ign'], False, rel_seek=rs, call=call, hist=hist)
+            ro, re_ = self.drain_jsonl(c, case['mode'], case['ign'], True, rel_seek=rs, call=call, hist=hist)
+            ao, ae = self.drain_jsonl(c, case['mode'], case['ign'], False)
+            return {'fwd': fo, 'fexc': fe, 'rev': ro, 'rexc': re_, 'all': ao, 'aexc': ae}
+        if k == 'jl':
+            c = content(case)
+            fa = None if case['ign'] else []
+            ra = None if case['ign'] else []
+            fp = [] if case['mode'][0] == 'b' else None
+            fo, fe = self.drain_jsonl(c, case['mode'], case['ign'], False, resume=fa, poss=fp, call=call, hist=hist, own=own)
+            # reverse mode starts from the end wherever the file position was
+            ro, re_ = self.drain_jsonl(c, case['mode'], case['ign'], True, case.get('pre', 0), resume=ra, call=call,
+                                       hist=hist, own=own)
+            obs = {'fwd': fo, 'fexc': fe, 'rev': ro, 'rexc': re_}
+            if fp is not None:
+                obs['fpos'] = fp
+            if fa is not None:
+                obs['fall'], obs['rall'] = fa, ra
+            return obs
+        return {'exc': 'BadCase'}
+
+    def impl(self, case):
         try:
             # a mutated implementation may loop forever: 5 s per case, and once that happened
             # three times (never on terminating code) 0.25 s for the rest of the run
             with time_limit(5 if self._timeouts < 3 else 0.25):
-                if k == 'sl':
-                    from boltons.strutils import iter_splitlines
-                    text = ''.join(chr(c) for c in case['t'])
-                    return {'lines': [cps(l) if isinstance(l, str) else ['?'] for l in iter_splitlines(text)]}
-                if k == 'rl':
-                    c = content(case)
-                    obs = self.run_rl(c, case['bs'], case['mode'], case.get('pre', 0))
-                    whole = self.run_rl(c, len(c) + 1, case['mode'])
-                    obs['whole'] = whole.get('lines')
-                    return obs
-                if k == 'rf':
-                    c = content(case)
-                    obs = self.run_rl(c, case['bs'], case['mode'], pos=case['pos'])
-                    whole = self.run_rl(c, len(c) + 1, case['mode'], pos=case['pos'])
-                    obs['whole'] = whole.get('lines')
-                    return obs
-                if k == 'in':
-                    from boltons.strutils import indent
-                    text, margin, nl = (''.join(chr(c) for c in case[x]) for x in ('t', 'm', 'nl'))
-                    if case['key'] == 'bool':
-                        r = indent(text, margin, nl)
-                    else:
-                        r = indent(text, margin, nl, key=lambda line: True)
-                    return {'text': cps(r) if isinstance(r, str) else ['?']}
-                if k == 'js':
-                    c = content(case)
-                    if not self.js_in_domain(c, case['num'], case['den']):
-                        return {'exc': 'OutsideDomain'}
-                    rs = case['num'] / case['den']
-                    fo, fe = self.drain_jsonl(c, case['mode'], case['ign'], False, rel_seek=rs)
-                    ro, re_ = self.drain_jsonl(c, case['mode'], case['ign'], True, rel_seek=rs)
-                    ao, ae = self.drain_jsonl(c, case['mode'], case['ign'], False)
-                    return {'fwd': fo, 'fexc': fe, 'rev': ro, 'rexc': re_, 'all': ao, 'aexc': ae}
-                if k == 'jl':
-                    c = content(case)
-                    fa = None if case['ign'] else []
-                    ra = None if case['ign'] else []
-                    fp = [] if case['mode'][0] == 'b' else None
-                    fo, fe = self.drain_jsonl(c, case['mode'], case['ign'], False, resume=fa, poss=fp)
-                    # reverse mode starts from the end wherever the file position was
-                    ro, re_ = self.drain_jsonl(c, case['mode'], case['ign'], True, case.get('pre', 0), resume=ra)
-                    obs = {'fwd': fo, 'fexc': fe, 'rev': ro, 'rexc': re_}
-                    if fp is not None:
-                        obs['fpos'] = fp
-                    if fa is not None:
-                        obs['fall'], obs['rall'] = fa, ra
-                    return obs
+                obs = self.observe(case)
+                if case.get('hist') or case.get('call') or case.get('own'):
+                    # the judged call is made twice: same answer both times
+                    again = self.observe(case)
+                    if again != obs and 'exc' not in obs:
+                        return dict(obs, exc='SecondCallDiffers')
+                return obs
         except CaseTimeout:
             self._timeouts += 1
             return {'exc': 'CaseTimeout'}
         except Exception as e:
             return {'exc': exc_name(e)}
-        return {'exc': 'BadCase'}
+        finally:
+            self._sibs = None
 
     # ------------------------------------------------------------------ canonical text
     @staticmethod
@@ -1284,7 +1819,7 @@ class C19(Property):
         if 'exc' in obs and 'lines' not in obs:
             return 'X' + obs['exc']
         if k == 'sl':
-            text = ''.join(chr(c) for c in case['t'])
+            text = ''.join(map(chr, text_cps(case)))
             return show_lines(obs['lines'], show_cps) + '|' + show_lines([cps(l) for l in text.splitlines()], show_cps)
         if k == 'in':
             return 'X' + obs['exc'] if 'exc' in obs else show_cps(obs['text'])
@@ -1342,19 +1877,21 @@ class C19(Property):
         return self.oracle_jl(case, obs)
 
     def oracle_sl(self, case, obs):
-        t = case['t']
+        t = text_cps(case)
         if any(c in FS_CPS for c in t):
             self.stats['sl_outside_statement'] = self.stats.get('sl_outside_statement', 0) + 1
             return None                       # the statement is about texts whose breaks are the eight forms
-        text = ''.join(chr(c) for c in t)
+        text = ''.join(map(chr, t))
+        if len(t) > 256:
+            self.stats['sl_longer_than_256'] = self.stats.get('sl_longer_than_256', 0) + 1
         want = [cps(l) for l in text.splitlines()]
         if t and t[-1] in BREAK_CPS:
             want.append([])
         self._nt = any(c in BREAK_CPS for c in t)
         if obs['lines'] != want:
-            return Failure('splitlines', 'iter_splitlines(%r) = %r, expected %r' % (
-                text, [''.join(map(chr, l)) if '?' not in l else l for l in obs['lines']],
-                [''.join(map(chr, l)) for l in want]))
+            return Failure('splitlines', 'iter_splitlines(%s) = %s, expected %s' % (
+                self.brief(text), self.brief_lines([''.join(map(chr, l)) if '?' not in l else repr(l) for l in obs['lines']]),
+                self.brief_lines([''.join(map(chr, l)) for l in want])))
         return None
 
     @staticmethod
@@ -1368,20 +1905,22 @@ class C19(Property):
     def oracle_in(self, case, obs):
         """indent() = newline.join of the lines of the text (str.splitlines, plus a final '' after a closing
         line break), each given the margin when key(line)"""
-        t = case['t']
+        t = text_cps(case)
         if any(c in FS_CPS for c in t):
             self.stats['sl_outside_statement'] = self.stats.get('sl_outside_statement', 0) + 1
             return None
-        text, margin, nl = (''.join(chr(c) for c in case[x]) for x in ('t', 'm', 'nl'))
+        text, margin, nl = (''.join(map(chr, x)) for x in (t, case['m'], case['nl']))
         lines = text.splitlines()
         if t and t[-1] in BREAK_CPS:
             lines.append('')
-        want = nl.join((margin + l) if (l or case['key'] == 'all') else l for l in lines)
+        every = self.IN_KEYS[case['key']] == 'all'
+        want = nl.join((margin + l) if (l or every) else l for l in lines)
         self._nt = any(c in BREAK_CPS for c in t)
         if obs['text'] != cps(want):
-            got = ''.join(map(chr, obs['text'])) if '?' not in obs['text'] else obs['text']
-            return Failure('indent', 'indent(%r, %r, %r%s) = %r, expected %r' % (
-                text, margin, nl, '' if case['key'] == 'bool' else ', key=always', got, want))
+            got = ''.join(map(chr, obs['text'])) if '?' not in obs['text'] else repr(obs['text'])
+            return Failure('indent', 'indent(%s, %r, %r%s) = %s, expected %s' % (
+                self.brief(text), margin, nl, '' if case['key'] == 'bool' else ', key=%s' % case['key'],
+                self.brief(got), self.brief(want)))
         return None
 
     @staticmethod
@@ -1576,7 +2115,7 @@ class C19(Property):
                     j += 1
                 out.append(repr(c[i:j]))
             i = j
-        return ' + '.join(out) + (' ...' if i < n else '') + ' (%d bytes)' % n
+        return ' + '.join(out) + (' ...' if i < n else '') + ' (%d %s)' % (n, 'characters' if isinstance(c, str) else 'bytes')
 
     @staticmethod
     def brief_objs(objs):
@@ -1602,6 +2141,26 @@ class C19(Property):
     # ------------------------------------------------------------------ shrinking
     def shrink(self, case):
         k = case['k']
+        if 'tr' in case:
+            # run-length text: drop a segment, shorten a run (towards the smallest length that still fails)
+            segs = case['tr']
+            for i in range(len(segs)):
+                if len(segs) > 1:
+                    yield dict(case, tr=segs[:i] + segs[i + 1:])
+            for i, (h, n) in enumerate(segs):
+                for m in (1, n // 2, n * 3 // 4, n * 7 // 8, n - 64, n - 8, n - 1):
+                    if 1 <= m < n:
+                        yield dict(case, tr=segs[:i] + [[h, m]] + segs[i + 1:])
+            if sum(len(h) * n for h, n in segs) <= 12:
+                yield dict({kk: v for kk, v in case.items() if kk != 'tr'}, t=text_cps(case))
+            for kk in ('call', 'hist'):
+                if case.get(kk):
+                    yield {k2: v for k2, v in case.items() if k2 != kk}
+            return
+        if k in ('sl', 'in'):
+            for kk in ('call', 'hist'):
+                if case.get(kk):
+                    yield {k2: v for k2, v in case.items() if k2 != kk}
         if k == 'sl':
             t = case['t']
             for i in range(len(t)):
@@ -1618,6 +2177,9 @@ class C19(Property):
                 for i in range(len(case[key])):
                     yield dict(case, **{key: case[key][:i] + case[key][i + 1:]})
             return
+        for kk in ('hist', 'call', 'own'):
+            if case.get(kk):
+                yield {k2: v for k2, v in case.items() if k2 != kk}
         text = case['mode'][0] == 't' and case['mode'] != 'tl'
         if len(case['mode']) > 1 and case['mode'] != 'tl':
             yield dict(case, mode=case['mode'][0])
@@ -1636,6 +2198,10 @@ class C19(Property):
                         d = segs[:i] + [[h, m]] + segs[i + 1:]
                         if not (text and not self.decodable(content({'rle': d}))):
                             yield dict(case, rle=d)
+            if k in ('rl', 'rf'):
+                for bs in (1, 2, case['bs'] - 1, case['bs'] // 2):
+                    if 1 <= bs < case['bs']:
+                        yield dict(case, bs=bs)
             return
         c = unhx(case['c'])
         n = len(c)
